@@ -52,7 +52,7 @@ def prelude(bases, types):
 
 
 def ops_for(ty):
-    ops = ["add", "sub", "rem", "addas", "subas", "remas", "smul", "sdiv", "smulas", "sdivas", "max", "min"]
+    ops = ["add", "sub", "rem", "addas", "subas", "remas", "smul", "sdiv", "smulas", "sdivas", "max", "min", "lmul", "ldiv"]
     if signed(ty):
         ops += ["neg", "abs", "signum"]
     if prim_int(ty):
@@ -70,6 +70,10 @@ def hist_slot(qm, alias, bs, ty):
     for o, sym in (("smul", "*"), ("sdiv", "/")):
         arms.append(f'"{o}" => {{ let b = p(arg); q = q.clone() {sym} b.clone(); r = r.clone() {sym} b; }}')
         arms.append(f'"{o}as" => {{ let b = p(arg); q {sym}= b.clone(); r {sym}= b; }}')
+    # a bare number on the LEFT: the result has another type (for / the reciprocal dimension), so the register is left alone and the
+    # step reports the pair (stored value of b op q, b op r)
+    arms.append('"lmul" => { let b = p(arg); let t_ = b.clone() * q.clone(); chk = Some(format!("{}|{}", sh(&t_.value), sh(&(b.clone() * r.clone())))); }')
+    arms.append('"ldiv" => { let b = p(arg); let t_ = b.clone() / q.clone(); chk = Some(format!("{}|{}", sh(&t_.value), sh(&(b.clone() / r.clone())))); }')
     if fl:
         arms.append('"max" => { let b = p(arg); q = q.max(mk(b)); r = r.max(b); }')
         arms.append('"min" => { let b = p(arg); q = q.min(mk(b)); r = r.min(b); }')
@@ -117,11 +121,12 @@ def hist_slot(qm, alias, bs, ty):
     let mut out: Vec<String> = Vec::new();
     for t in &a[1..] {{
         let (op, arg) = match t.split_once('=') {{ Some((o, x)) => (o, x), None => (*t, "") }};
+        let mut chk: Option<String> = None;
         match op {{
             {arms_s}
             _ => return "BADOP".to_string(),
         }}
-        out.push(format!("{{}}|{{}}", sh(&q.value), sh(&r)));
+        out.push(chk.unwrap_or_else(|| format!("{{}}|{{}}", sh(&q.value), sh(&r))));
     }}
     out.join(";")"""
 
@@ -175,6 +180,13 @@ def gen_history(rng, ty, length):
             continue
         bv = gen()
         if not VG.fits(ty, bv):
+            continue
+        if o in ("lmul", "ldiv"):
+            if VG.exact_bin(ty, "mul" if o == "lmul" else "div", bv, acc) is None:
+                continue
+            if c == "q" and o == "ldiv" and not VG.fits(ty, bv / acc):
+                continue
+            ops.append((o, VG.val_text(ty, bv)))
             continue
         if o in ("satadd", "satsub"):
             st = STYPES[ty]
@@ -231,9 +243,11 @@ def run(ctx):
                     cases.append((cid, slot, args))
                     meta[cid] = ("hist", ty, bs, qm, init, ops, slot)
                     cls = STYPES[ty]["cls"]
-                    if all(o in MODEL_OP for o, _ in ops):
+                    if all(o in MODEL_OP or o in ("lmul", "ldiv") for o, _ in ops):
                         hs = []
                         for o, a in ops:
+                            if o in ("lmul", "ldiv"):
+                                continue        # leaves the register alone: not a step of the model history
                             kind, mo = MODEL_OP[o]
                             if kind == "bin":
                                 hs.append(f"(bin {mo} {U} {model_val(ty, a)})")
@@ -305,7 +319,7 @@ def run(ctx):
                 distinct.add((ty, bs, qm, o, a, pairs[k][1] if k < len(pairs) else None))
             if cid in model:
                 mt = [canon_model_out(ty, x) for x in model[cid].split()]
-                it = [p[0] for p in pairs]
+                it = [p[0] for k_, p in enumerate(pairs) if k_ >= len(ops) or ops[k_][0] not in ("lmul", "ldiv")]
                 if mt != it:
                     k = next((i for i, (x, y) in enumerate(zip(mt, it)) if x != y), min(len(mt), len(it)))
                     bad_model.append((cid, k, mt[k] if k < len(mt) else None, it[k] if k < len(it) else None))
